@@ -306,7 +306,7 @@ def compat_case(draw):
     return {"a": a, "b": b, "kind": kind, "scale": draw(st.sampled_from([1.0, 1.0, 1.0, 1.0e-6, 1.0e-5, 1.0e-3, 1.0e3]))}
 
 
-CRS = [None, "EPSG:25832", "EPSG:25832", "EPSG:4326"]
+CRS = [None, "EPSG:25832", "EPSG:25832", "EPSG:4326", "OGC:CRS84"]  # the last two: same datum, axes swapped
 
 
 def check_compat(case, ctx):
